@@ -158,7 +158,8 @@ def run_case(ctx, case, rec, d):
         dead_names = names + ['p_dead']
         fdead = np.vstack([fphys[perm], fphys[perm][0:1] * 1.0])
         fdead[-1, 1] = 0.0
-        md_d = fc.build_package(d, 'pkg_dead', {'fmt': fmt, 'names': dead_names, 'bands': BANDS, 'flux': fdead})
+        # (in a cube package the dead model is also flagged invalid in the cube: it is still a model of the package)
+        md_d = fc.build_package(d, 'pkg_dead', {'fmt': fmt, 'names': dead_names, 'bands': BANDS, 'flux': fdead, 'valid': [1] * (len(dead_names) - 1) + [0]})
         ft_d = fc.make_fitter(md_d, BANDS, 'power', (avlo, avhi), memmap=memmap)
         for si, (fv, lim) in enumerate(SOURCES[:1] + SOURCES[4:6]):
             fl = base * np.array([1.0, 1.15, 0.9, 1.05])
